@@ -121,20 +121,39 @@ func mgTablesTok(ts []mgTable) string {
 	return strings.Join(tt, "|")
 }
 
-// drains an iterator the way a caller does
-func mgDrain(it sstables.SSTableIteratorI) ([]mgRec, error) {
-	var out []mgRec
-	for i := 0; i < 10000000; i++ {
-		k, v, err := it.Next()
-		if err != nil {
-			if errors.Is(err, sstables.Done) {
-				return out, nil
-			}
-			return out, err
-		}
-		out = append(out, mgRec{k, v})
+func mgCopy(b []byte) []byte {
+	if b == nil {
+		return nil
 	}
-	return out, errors.New("iterator does not terminate")
+	return append([]byte{}, b...)
+}
+
+// drains an iterator the way a caller does. The records are copied at the moment Next returns them; the slices
+// actually handed out are kept and compared with the copies at the end: mutated != "" says that a key or value
+// returned by one Next was changed by a later Next (memory owned by the iterator handed out).
+func mgDrain(it sstables.SSTableIteratorI) (out []mgRec, mutated string, err error) {
+	var handed []mgRec
+	check := func() string {
+		for i := range out {
+			if !bytes.Equal(out[i].k, handed[i].k) || !bytes.Equal(out[i].v, handed[i].v) {
+				return fmt.Sprintf("record #%d was returned as %s=%s and reads %s=%s after later Next calls",
+					i, gb(out[i].k), gb(out[i].v), gb(handed[i].k), gb(handed[i].v))
+			}
+		}
+		return ""
+	}
+	for i := 0; i < 10000000; i++ {
+		k, v, e := it.Next()
+		if e != nil {
+			if errors.Is(e, sstables.Done) {
+				return out, check(), nil
+			}
+			return out, check(), e
+		}
+		handed = append(handed, mgRec{k, v})
+		out = append(out, mgRec{mgCopy(k), mgCopy(v)})
+	}
+	return out, "", errors.New("iterator does not terminate")
 }
 
 func mgWriteTable(dir string, t mgTable, bufSize, comp int) error {
@@ -158,8 +177,27 @@ func mgWriteTable(dir string, t mgTable, bufSize, comp int) error {
 	return w.Close()
 }
 
-func mgOpen(dir string) (sstables.SSTableReaderI, error) {
-	return sstables.NewSSTableReader(sstables.ReadBasePath(dir), sstables.ReadWithKeyComparator(skiplist.BytesComparator{}))
+// index loaders: the answers must not depend on them
+const (
+	mgLdSlice = iota // default
+	mgLdSkipList
+	mgLdMap  // Byte4KeyMapper: Get/Contains collide for keys that are equal after zero padding (documented)
+	mgLdDisk // EXPERIMENTAL: only the sequential full Scan() paths are used with it
+)
+
+var mgLdNames = []string{"slice", "skiplist", "map4", "disk"}
+
+func mgOpen(dir string, loader int) (sstables.SSTableReaderI, error) {
+	opts := []sstables.ReadOption{sstables.ReadBasePath(dir), sstables.ReadWithKeyComparator(skiplist.BytesComparator{})}
+	switch loader {
+	case mgLdSkipList:
+		opts = append(opts, sstables.ReadIndexLoader(&sstables.SkipListIndexLoader{KeyComparator: skiplist.BytesComparator{}, ReadBufferSize: 4096}))
+	case mgLdMap:
+		opts = append(opts, sstables.ReadIndexLoader(&sstables.MapKeyIndexLoader[[4]byte]{ReadBufferSize: 4096, Mapper: &sstables.Byte4KeyMapper{}}))
+	case mgLdDisk:
+		opts = append(opts, sstables.ReadIndexLoader(&sstables.DiskIndexLoader{}))
+	}
+	return sstables.NewSSTableReader(opts...)
 }
 
 // the independent reference: apply the tables in order to a map, later tables override earlier ones
@@ -227,11 +265,12 @@ type mgRun struct {
 	calls    int
 	written  []mgRec
 	readBack []mgRec // content of the output table after Close (only when err == nil)
+	mutated  string  // a record of the read-back scan changed under later Next calls
 	numRecs  uint64
 }
 
 // one Merge / MergeCompact over fresh iterators of the given readers into a fresh real table
-func mgRunOp(op string, readers []sstables.SSTableReaderI, outDir string, f mgFault, useIndexScan bool, bufSize, comp int) (*mgRun, error) {
+func mgRunOp(op string, readers []sstables.SSTableReaderI, outDir string, f mgFault, useIndexScan bool, bufSize, comp, backLoader int) (*mgRun, error) {
 	if err := os.MkdirAll(outDir, 0o755); err != nil {
 		return nil, err
 	}
@@ -287,7 +326,7 @@ func mgRunOp(op string, readers []sstables.SSTableReaderI, outDir string, f mgFa
 		if cerr != nil {
 			return nil, fmt.Errorf("closing the merged table: %w", cerr)
 		}
-		rd, err := mgOpen(outDir)
+		rd, err := mgOpen(outDir, backLoader)
 		if err != nil {
 			return nil, fmt.Errorf("opening the merged table: %w", err)
 		}
@@ -295,7 +334,7 @@ func mgRunOp(op string, readers []sstables.SSTableReaderI, outDir string, f mgFa
 		if err != nil {
 			return nil, err
 		}
-		run.readBack, err = mgDrain(it)
+		run.readBack, run.mutated, err = mgDrain(it)
 		if err != nil {
 			return nil, fmt.Errorf("scanning the merged table: %w", err)
 		}
@@ -318,8 +357,8 @@ func mgGenKey(r *Rng) []byte {
 
 func runMerge(res *Result, drv *Driver, seed uint64, n int, tier string, only int) error {
 	res.Rule = "1..6 real tables (0..40 keys each over keys of length 0..3 from {00,'a','b',ff}, empty key, tombstones, empty values, " +
-		"arbitrary overlap; 25% generated pairwise disjoint) x Get/Contains on every key + absent keys x Scan/ScanStartingAt/ScanRange on all interesting " +
-		"bounds x Merge/MergeCompact(both reducers); small cases additionally with every single read/write fault and sampled double faults; " +
+		"arbitrary overlap; 25% generated pairwise disjoint; opened with the slice/skip-list/map/disk index loader, per case or per table) x Get/Contains on every key + absent keys x Scan/ScanStartingAt/ScanRange on all interesting " +
+		"bounds x Merge/MergeCompact(both reducers); disk-index cases use only the sequential full Scan paths, map-index cases skip Get/Contains when keys collide after zero padding; every drained iterator is checked for handing out memory it later overwrites; small cases additionally with every single read/write fault and sampled double faults; " +
 		"non-trivial = at least 2 non-empty tables; distinct = distinct table lists"
 	base, err := os.MkdirTemp("", "verif-merge-")
 	if err != nil {
@@ -473,6 +512,25 @@ func runMerge(res *Result, drv *Driver, seed uint64, n int, tier string, only in
 			}
 			_ = os.RemoveAll(cdir)
 		}
+		// index loader: one for all tables of the case (70%) or one per table
+		loaders := make([]int, nt)
+		pickLoader := func() int { return []int{mgLdSlice, mgLdSlice, mgLdSlice, mgLdSkipList, mgLdSkipList, mgLdMap, mgLdDisk, mgLdDisk, mgLdDisk}[r.Intn(9)] }
+		{
+			one := pickLoader()
+			mixed := r.Chance(30)
+			for t := range loaders {
+				loaders[t] = one
+				if mixed {
+					loaders[t] = pickLoader()
+				}
+			}
+		}
+		anyMap, anyDisk := false, false
+		for _, l := range loaders {
+			res.Stat("index-loader:" + mgLdNames[l])
+			anyMap = anyMap || l == mgLdMap
+			anyDisk = anyDisk || l == mgLdDisk
+		}
 		for t := range tables {
 			dir := filepath.Join(cdir, fmt.Sprintf("t%d", t))
 			comp := r.Intn(4)
@@ -481,12 +539,34 @@ func runMerge(res *Result, drv *Driver, seed uint64, n int, tier string, only in
 				closeAll()
 				return fmt.Errorf("case %d: writing input table %d: %w", idx, t, err)
 			}
-			rd, err := mgOpen(dir)
+			rd, err := mgOpen(dir, loaders[t])
 			if err != nil {
 				closeAll()
-				return fmt.Errorf("case %d: opening input table %d: %w", idx, t, err)
+				return fmt.Errorf("case %d: opening input table %d (%s index): %w", idx, t, mgLdNames[loaders[t]], err)
 			}
 			readers = append(readers, rd)
+			// every single reader's full scan returns the table and hands out memory it does not touch again
+			res.Evaluations++
+			if e := safely(func() error {
+				it, err := rd.Scan()
+				if err != nil {
+					return err
+				}
+				recs, mut, err := mgDrain(it)
+				if err != nil {
+					return err
+				}
+				if mut != "" {
+					res.Violate(idx, "C08", "reader:scan:returned-slice-mutated:"+mgLdNames[loaders[t]], "table "+strconv.Itoa(t)+": "+mut, cs)
+				}
+				if got, want := mgRecsStr(recs, false), mgRecsStr(tables[t], false); got != want {
+					res.Violate(idx, "C08", "reader:scan:"+mgLdNames[loaders[t]], fmt.Sprintf("table %d scans as %s, was written as %s", t, got, want), cs)
+				}
+				return nil
+			}); e != nil {
+				closeAll()
+				return fmt.Errorf("case %d: scanning input table %d (%s index): %w", idx, t, mgLdNames[loaders[t]], e)
+			}
 		}
 		ref := mgOverlay(tables)
 		super := sstables.NewSuperSSTableReader(readers, skiplist.BytesComparator{})
@@ -524,7 +604,29 @@ func runMerge(res *Result, drv *Driver, seed uint64, n int, tier string, only in
 			}
 			probeKeys = pk
 		}
+		// which probes the case's index loaders support (the full Scan and the merges are always run)
+		doPoint, doBounds := !anyDisk, !anyDisk
+		if anyMap {
+			// Get/Contains of the map index identify keys that are equal after zero padding
+			stripped := map[string]bool{}
+			for _, k := range probeKeys {
+				z := strings.TrimRight(string(k), "\x00")
+				if stripped[z] {
+					doPoint = false
+				}
+				stripped[z] = true
+			}
+		}
+		if !doPoint {
+			res.Stat("probes:no-get-contains")
+		}
+		if !doBounds {
+			res.Stat("probes:full-scan-only")
+		}
 		for _, k := range probeKeys {
+			if !doPoint {
+				break
+			}
 			ks := gb(nonNil(k))
 			arg := k
 			if len(k) == 0 && r.Chance(50) {
@@ -577,8 +679,12 @@ func runMerge(res *Result, drv *Driver, seed uint64, n int, tier string, only in
 			} else {
 				var recs []mgRec
 				var derr error
-				if e := safely(func() error { recs, derr = mgDrain(it); return nil }); e != nil {
+				var mut string
+				if e := safely(func() error { recs, mut, derr = mgDrain(it); return nil }); e != nil {
 					derr = e
+				}
+				if mut != "" {
+					res.Violate(idx, "C08", sigOf(strings.SplitN(p, ":", 2)[0])+":returned-slice-mutated", p+": "+mut, cs)
 				}
 				if derr != nil {
 					got = "err:" + mergeErrKind(derr)
@@ -603,11 +709,17 @@ func runMerge(res *Result, drv *Driver, seed uint64, n int, tier string, only in
 		live := func(k, v []byte) bool { return v != nil }
 		scan("scan", func() (sstables.SSTableIteratorI, error) { return super.Scan() }, mgRecsStr(ref.list(live), false), false)
 		for _, k := range probeKeys {
+			if !doBounds {
+				break
+			}
 			kk := k
 			scan("from:"+gb(nonNil(k)), func() (sstables.SSTableIteratorI, error) { return super.ScanStartingAt(kk) },
 				mgRecsStr(ref.list(func(x, v []byte) bool { return v != nil && bytes.Compare(x, kk) >= 0 }), false), false)
 		}
 		for _, lo := range probeKeys {
+			if !doBounds {
+				break
+			}
 			for _, hi := range probeKeys {
 				if len(probeKeys) > 9 && !r.Chance(3000/len(probeKeys)/len(probeKeys)+3) {
 					continue
@@ -639,7 +751,7 @@ func runMerge(res *Result, drv *Driver, seed uint64, n int, tier string, only in
 		doRun := func(op string, f mgFault) error {
 			runNo++
 			outDir := filepath.Join(cdir, fmt.Sprintf("out%d", runNo))
-			run, err := mgRunOp(op, readers, outDir, f, r.Chance(30), bufSizes[r.Intn(len(bufSizes))], r.Intn(4))
+			run, err := mgRunOp(op, readers, outDir, f, !anyDisk && r.Chance(30), bufSizes[r.Intn(len(bufSizes))], r.Intn(4), loaders[0])
 			if err != nil {
 				return fmt.Errorf("case %d op %s: %w", idx, op, err)
 			}
@@ -682,6 +794,9 @@ func runMerge(res *Result, drv *Driver, seed uint64, n int, tier string, only in
 				}
 				got := mgRecsStr(run.readBack, false)
 				bad := ""
+				if run.mutated != "" {
+					res.Violate(idx, "C08", "merge:"+op+":read-back:returned-slice-mutated", run.mutated, rcs)
+				}
 				switch op {
 				case "merge":
 					// plain merge writes every record of every input; success is only possible without duplicates
